@@ -1,6 +1,6 @@
-/- Driver operations for `FlakeStats.lean` and `CNTime.lean`. -/
+/- Driver operations for `FlakeStats.lean`, and `kCN` (trigger step of `Flake.lean`). -/
 import SnowModel.FlakeStats
-import SnowModel.CNTime
+import SnowModel.Flake
 import SnowModel.Ops.OpCond
 import SnowModel.Wire
 
@@ -76,27 +76,28 @@ def flakeStats : Op := fun j => do
     ("timeIdx", encNats (times.map (timeIdx t))),
     ("perThr", Json.arr perThr.toArray)]
 
-/-- `k_CN` of `Snowflake.run()` together with `opcond.cnt`.
+end
+
+/-- `k_CN` of `Snowflake.run()` together with `opcond.cnt` (Float only: `Flake` needs `Transc`).
 request: the program (as for `cnt`), optional `cn` (absent/null = `cnTemp=None`), `dt`. -/
 def kCN : Op := fun j => do
-  match ← decOpCond α j with
+  match ← decOpCond Float j with
   | .error e => return Json.mkObj [("raise", Json.str e)]
   | .ok oc =>
-    let dt : α ← num j "dt"
-    let cn : Option α ← match optFld j "cn" with
+    let dt : Float ← num j "dt"
+    let cn : Option Float ← match optFld j "cn" with
       | none => pure none
-      | some v => do let x : α ← Wire.dec v; pure (some x)
+      | some v => do let x : Float ← Wire.dec v; pure (some x)
     let N := nSteps oc.t_tot dt
-    let c := cntOpt oc cn
+    let t := Flake.timeVec N dt
     return Json.mkObj [
-      ("cnt", match c with | none => Json.null | some c => encNat c),
+      ("cnt", match cn with | none => Json.null | some c => encNat (cntOf (profile oc (Num.one : Float)) c)),
       ("N", encNat N),
-      ("kCN", encNat (kCNOf N dt c))]
-
-end
+      ("tlen", encNat t.length),
+      ("kCN", encNat (Flake.kCNof N t (Flake.cntTime oc cn)))]
 
 def flakeStatsOps : List (String × Op) := [
   ("flakeStats", byNum fun α => flakeStats α),
-  ("kCN", byNum fun α => kCN α)]
+  ("kCN", kCN)]
 
 end Snow.Ops
